@@ -15,7 +15,7 @@ ASSUMPTIONS = [
     "URI alphabet: all Unicode code points (z3 strings), witnesses up to 12 characters; Python's \\s and \\d classes are modelled for code points <= U+FFFF listed in symx/rex.py",
     "mutation menu per slot: None, bool, free 65-bit integer, float, 6 strings, bytes, 3 lists, 4 dicts; one slot at a time (thorough: pairs for the id/uri slots)",
 ]
-BOUNDS = {"quick": "6 URI modes + 4 realm patterns + custom-attribute pattern: language inclusion both ways vs the WAMP grammar, witnesses <= 12 chars; ids over -2^64..2^64; 25 classes x every list position x every option key x 17 replacement values; envelope: 9 structures x free type code; codec raising 6 exception types x 4 serializers",
+BOUNDS = {"quick": "6 URI modes + 4 realm patterns + custom-attribute pattern: language inclusion both ways vs the WAMP grammar, witnesses <= 12 chars; ids over -2^64..2^64; 25 classes x every list position x every option key x 17 replacement values; envelope: 9 structures x free type code; codec raising 6 exception types x 4 serializers; every valid field also replaced by its equal-valued twin of another type and by +-10**5000; verdicts independent of earlier validations and of earlier messages (history/ units)",
           "thorough": "witness length <= 20; two simultaneous mutations for id/URI slots"}
 EXPECT_COVERS = ["history", "typecode:accepted", "typecode:rejected", "uri:code-subset-of-spec", "uri:spec-subset-of-code", "uri:dispatch", "id:range", "parse:accepted", "parse:ProtocolError", "envelope", "codec-raises"]
 BUDGET = {"quick": dict(wall_s=300, max_paths=20000, diff_samples=2), "thorough": dict(wall_s=2400, diff_samples=2)}
